@@ -131,8 +131,8 @@ WALK = {
         ('anon', dict(KidMenu={kd(t, mn, 1, anon=True) for t in ['int', 'string', 'decimal', 'integer'] for mn in (0, 1)}
                       | {kd('int', 1, 2), kd('u', 1, 2), kd('string', 0, 1, True, True, anon=True)}, AttrMenu=set()),
          dict(MinKids=2, MaxKids=3, MaxAtts=0, LexCap=1, XsiOn=False, VOn=False, RetypeTo={'string', 'decimal'})),
-        ('big', dict(KidMenu={kd(t, 1, 1) for t in ['long', 'unsignedLong', 'bint', 'bdec']} | {kd('long', 0, 2)},
-                     AttrMenu={ad('c', 'bint'), ad('a', 'long', 'dflt')}),
+        ('big', dict(KidMenu={kd(t, 1, 1) for t in ['long', 'unsignedLong', 'bint', 'bdec']},
+                     AttrMenu={ad('c', 'bint')}),
          dict(MinKids=2, MaxKids=2, MaxAtts=1, LexCap=2, XsiOn=False, VOn=False, RetypeTo={'bint', 'bdec'})),
         ('types2', dict(KidMenu={kd(t, 1, 1) for t in SIMPLE9 + ['sc', 'grp']}, AttrMenu={ad('a', 'int')}),
          dict(MinKids=2, MaxKids=2, MaxAtts=1, LexCap=1, XsiOn=False, VOn=False, RetypeTo={'string'})),
